@@ -50,16 +50,28 @@ func ZZ_C16_QueueLoop() {
 	if ok {
 		zzvf.Assert(zzvf.Same(recs[0], r1) && zzvf.Same(recs[1], r2), "queueloop/records-in-order-and-intact")
 	}
+	// re-configuration while the loop runs (what ApplyConfig assigns): the waiting time in
+	// force is the new one — the idle flush of the next batch comes after about that long
+	s.logsinkMaxWaitTime = 300
+	r4 := zzRecord(3)
+	r4.Time = 1700000000015
+	s.Add(r4)
+	t0 := zzvf.ClockNow()
+	<-c.ch
+	t1 := zzvf.ClockNow()
+	// (the wait already in progress when the setting changed ends with the record; the
+	// following idle wait uses the new setting: well under the old 5 s)
+	zzvf.Assert(t1-t0 <= 2500, "queueloop/reconfigured-waiting-time-is-in-force")
 	s.Add(r3)
 	zzvf.SleepYield(50) // let the loop pick the record up
 	cancel()
 	<-c.ch // the record still buffered reaches the client (waiting time or stop)
 	recs, okCount, okStatus, _ = zzDecode(&c.zzClient, false)
 	zzvf.Assert(okCount && okStatus, "queueloop/after-stop/record-count-and-status-consistent")
-	ok = len(recs) == 3
+	ok = len(recs) == 4
 	zzvf.Assert(ok, "queueloop/after-stop/nothing-lost-nothing-duplicated")
 	if ok {
-		zzvf.Assert(zzvf.Same(recs[2], r3), "queueloop/after-stop/last-record-intact")
+		zzvf.Assert(zzvf.Same(recs[2], r4) && zzvf.Same(recs[3], r3), "queueloop/after-stop/last-records-intact")
 	}
 	zzvf.Reach("queue-loop")
 }
